@@ -279,8 +279,16 @@ def parseComment (d : TokenDef) (src : Str) (b : Nat) : Except Err (Nat × Token
     let e := src.length
     pure (e, ⟨T.comment, slice src b e, mkMap src b e⟩)
 
-/-- the `while end < len(source)` loop of `parse_quote` (tokenizer.py:311-319) -/
-def quoteLoop (src close : Str) : Nat → Nat → Except Err Nat
+/-- `escapes` (tokenizer.py:318-320): the run of backslashes in front of `index`, not reaching back over `body`;
+    `while index - escapes > body and source[index - escapes - 1] == '\\': escapes += 1` (at most `index` rounds) -/
+def escapeRun (src : Str) (body index : Nat) : Nat → Nat → Nat
+  | 0, esc => esc
+  | f + 1, esc =>
+    if index - esc > body && src[index - esc - 1]? == some '\\' then escapeRun src body index f (esc + 1) else esc
+
+/-- the `while end < len(source)` loop of `parse_quote` (tokenizer.py:311-328, after the escape-parity repair efe3cdf):
+    a found closing sequence is escaped iff the backslash run before it is odd; then the search resumes one character later -/
+def quoteLoop (src close : Str) (body : Nat) : Nat → Nat → Except Err Nat
   | fuel, e =>
     if e < src.length then
       match fuel with
@@ -289,17 +297,15 @@ def quoteLoop (src close : Str) : Nat → Nat → Except Err Nat
         match findFrom src close e with
         | none => .ok e
         | some idx =>
-          let prev := Nat.max e (idx - 1)
-          let e' := idx + close.length
-          match charAt src prev with
-          | .error er => .error er
-          | .ok ch => if ch = '\\' then quoteLoop src close f e' else .ok e'
+          let escapes := escapeRun src body idx (idx + 1) 0
+          if escapes % 2 = 1 then quoteLoop src close body f (idx + 1)
+          else .ok (idx + close.length)
     else .ok e
 
-/-- `parse_quote` (tokenizer.py:299-323). -/
+/-- `parse_quote` (tokenizer.py:299-332). -/
 def parseQuote (d : TokenDef) (src : Str) (b : Nat) : Except Err (Nat × Token) := do
   let pair ← firstOpen d.quote src b
-  let e ← quoteLoop src pair.2 src.length (b + pair.1.length)
+  let e ← quoteLoop src pair.2 (b + pair.1.length) src.length (b + pair.1.length)
   let value := slice src b e
   match value with
   | [] => .error .indexError                                            -- value[0]
